@@ -25,3 +25,8 @@ const (
 	// MaxArraySize is the largest number of array elements the parser accepts (the same limit as Redis).
 	MaxArraySize = 1024 * 1024
 )
+
+const (
+	// MaxArrayDepth is the deepest array nesting the parser accepts.
+	MaxArrayDepth = 128
+)
